@@ -441,18 +441,19 @@ Variable gunzip : bytes -> res bytes.
 Hypothesis gunzip_total : forall c, gunzip c <> Panic.
 Hypothesis gunzip_bounded : forall c raw, gunzip c = Ok raw -> len raw < block_limit.
 
-Lemma store_blocks_harmless fuel : forall s st, harmless (snd (store_blocks gunzip true fuel s st)).
+Lemma store_blocks_harmless bsz fuel : forall s st, harmless (snd (store_blocks gunzip true bsz fuel s st)).
 Proof.
   induction fuel as [|f IH]; intros s st; cbn [store_blocks]; [right; reflexivity|].
   destruct (read_frame s) as [| |coord comp rest]; [left; reflexivity|right; reflexivity|].
   destruct (gunzip comp) as [raw| |] eqn:EG; [|right; reflexivity|exfalso; eapply gunzip_total; eauto].
   pose proof (ingest_block_no_panic raw (gunzip_bounded _ _ EG)) as Hnp.
   destruct (ingest_block true raw) as [b| |] eqn:EI; [|right; reflexivity|congruence].
+  cbn [andb]. destruct (negb (dims_ok bsz b)); [right; reflexivity|].
   destruct (ingest_block_safe raw b (gunzip_bounded _ _ EG) EI) as [_ [Hv _]]. rewrite Hv. apply IH.
 Qed.
 
-Lemma store_blocks_frame fx fuel : forall s st st' o k,
-  store_blocks gunzip fx fuel s st = (st', o) -> ~ In k (frame_coords fuel s) -> sget st' k = sget st k.
+Lemma store_blocks_frame fx bsz fuel : forall s st st' o k,
+  store_blocks gunzip fx bsz fuel s st = (st', o) -> ~ In k (frame_coords fuel s) -> sget st' k = sget st k.
 Proof.
   induction fuel as [|f IH]; intros s st st' o k E Hk; cbn [store_blocks frame_coords] in *.
   - inversion E; reflexivity.
@@ -460,6 +461,7 @@ Proof.
     cbn [In] in Hk. assert (Hne : coord <> k) by tauto. assert (Hk' : ~ In k (frame_coords f rest)) by tauto.
     destruct (gunzip comp) as [raw| |]; try (inversion E; reflexivity).
     destruct (ingest_block fx raw) as [b| |]; try (inversion E; reflexivity).
+    destruct (fx && negb (dims_ok bsz b)); [inversion E; reflexivity|].
     destruct (view_calc b).
     + rewrite (IH _ _ _ _ _ E Hk'). apply sget_sput_other. exact Hne.
     + rewrite (IH _ _ _ _ _ E Hk'). apply sget_sput_other. exact Hne.
@@ -672,13 +674,13 @@ Proof. repeat split; vm_compute; reflexivity. Qed.
 Definition id_gunzip (c : bytes) : res bytes := Ok c.
 Definition one_frame (raw : bytes) : bytes := le_enc 4 3 ++ le_enc 4 0 ++ le_enc 4 0 ++ le_enc 4 (len raw) ++ raw.
 
-Lemma impl_blocks_crash : snd (handle id_gunzip false (RBlocks (one_frame w_index_outside)) []) = Crashed.
+Lemma impl_blocks_crash : snd (handle id_gunzip false (RBlocks (2, 1, 1) (one_frame w_index_outside)) []) = Crashed.
 Proof. vm_compute. reflexivity. Qed.
-Lemma impl_blocks_recovered : snd (handle id_gunzip false (RBlocks (one_frame w_inflated_labels)) []) = Recovered.
+Lemma impl_blocks_recovered : snd (handle id_gunzip false (RBlocks (1, 1, 1) (one_frame w_inflated_labels)) []) = Recovered.
 Proof. vm_compute. reflexivity. Qed.
 Lemma fixed_blocks_rejected :
-  handle id_gunzip true (RBlocks (one_frame w_index_outside)) [] = ([], Rejected) /\
-  handle id_gunzip true (RBlocks (one_frame w_inflated_labels)) [] = ([], Rejected).
+  handle id_gunzip true (RBlocks (2, 1, 1) (one_frame w_index_outside)) [] = ([], Rejected) /\
+  handle id_gunzip true (RBlocks (1, 1, 1) (one_frame w_inflated_labels)) [] = ([], Rejected).
 Proof. split; vm_compute; reflexivity. Qed.
 
 (* POST index/20 whose body fails to decode after the label field: answered 400, index deleted *)
@@ -729,3 +731,10 @@ Lemma throttle_sites_deferred : forallb (fun s : String.string * bool => snd s) 
 Proof. reflexivity. Qed.
 Lemma throttle_sites_nonempty : throttle_sites <> [].
 Proof. discriminate. Qed.
+
+(* ---- label ids chosen by the driver's labelmap histories ---- *)
+(* ids that differ by a multiple of shard_stride (harness/drivers/c20: shardStride) fall into the
+   same shard of the label-index locks: the shard count read from the source divides it *)
+Definition shard_stride : N := 720720 * 65536.
+Lemma shard_stride_covers_source : shard_stride mod n_P_numIndexShards = 0 /\ n_P_numIndexShards <> 0.
+Proof. split; [reflexivity|discriminate]. Qed.
